@@ -362,20 +362,7 @@ def run(ctx):
         plans.append((cx, None))
     if not quick:
         plans += [(a, b) for a, b in itertools.combinations(CONTEXTS, 2)][:: 9]
-    # several calls in ONE block (repeated callee, then a new one): the walk must not stop early
-    seqs = [('plain', 'plain2', 'plain3'), ('loop_body', 'loop_body2', None)]
-    for a_, b_, c_ in seqs:
-        tpl = Template(nh, [1, 2, 0][:ne], CONTEXTS)
-        e0 = tpl.entries[0]
-        hvs = [f for f in tpl.funcs if f['kind'] == 'v']
-        hvs[0]['slots']['use'].value = 'u0'
-        tpl.entries[1]['slots']['use'].value = 'tex'
-        sym = [e0['ctx'][x] for x in (a_, b_, c_) if x] + [hvs[-1]['slots']['use']]
-        module, info = build(ctx, tpl, sym, [])
-        label = f'global_shader_stages/sequence-{a_}+{b_}{"+" + c_ if c_ else ""}'
-        res = ctx.explore(label, lambda it: it.call('global_shader_stages', [mkref(module)]), assume=info['assume'],
-                          anchors=['global_shader_stages', 'update_stages', 'update_stages_blocks'])
-        check_stage_map(ctx, label, tpl, info, res, seen)
+    sequences(ctx, nh, ne, seen)
     for cx, cx2 in plans:
         tpl = Template(nh, [1, 2, 0][:ne], CONTEXTS)
         e0 = tpl.entries[0]
@@ -470,6 +457,26 @@ def run(ctx):
     ctx.extra['violations_by_rule'] = seen
 
 
+def sequences(ctx, nh, ne, seen):
+    """several calls in ONE block (repeated callee, then a new one), with a later entry point of another stage reaching the low helper
+    only THROUGH the top helper: neither an early stop of the walk nor a summary cached across entry points may lose a stage"""
+    seqs = [('plain', 'plain2', 'plain3'), ('loop_body', 'loop_body2', None)]
+    for a_, b_, c_ in seqs:
+        tpl = Template(nh, [1, 2, 0][:ne], CONTEXTS)
+        e0 = tpl.entries[0]
+        hvs = [f for f in tpl.funcs if f['kind'] == 'v']
+        hvs[0]['slots']['use'].value = 'u0'
+        hvs[-1]['slots']['callv'].value = hvs[0]['name']          # top helper calls the low helper
+        tpl.entries[1]['slots']['use'].value = 'tex'
+        tpl.entries[1]['ctx']['plain'].value = hvs[-1]['name']     # the other entry point reaches the low helper only through the top one
+        sym = [e0['ctx'][x] for x in (a_, b_, c_) if x] + [hvs[-1]['slots']['use']]
+        module, info = build(ctx, tpl, sym, [])
+        label = f'global_shader_stages/sequence-{a_}+{b_}{"+" + c_ if c_ else ""}'
+        res = ctx.explore(label, lambda it: it.call('global_shader_stages', [mkref(module)]), assume=info['assume'],
+                          anchors=['global_shader_stages', 'update_stages', 'update_stages_blocks'])
+        check_stage_map(ctx, label, tpl, info, res, seen)
+
+
 def replay_mask(ctx, b):
     """native replay of a stage-mask counterexample: a shader whose single uniform is used by exactly those stages"""
     uses = {0: 'let a = u.x;', 1: 'let a = u.x;', 2: 'let a = u.x;'}
@@ -553,5 +560,58 @@ def replay_pc(ctx, b):
     return vis.get('pc') != exp, {'wgsl': src, 'real': vis.get('pc'), 'expected': exp}
 
 
+def native(ctx):
+    """supplement when the symbolic part is inconclusive: random fillings of the whole template (every slot, every stage), expected
+    stage sets by plain reachability over the chosen values, compared with what the REAL generator emits"""
+    n = 40 if ctx.tier == 'quick' else 400
+    reported = False
+    for k in range(n):
+        tpl = Template(3, [ctx.rng.randrange(3) for _ in range(3)], CONTEXTS)
+        names_v = [f['name'] for f in tpl.funcs if f['kind'] == 'v']
+        names_r = [f['name'] for f in tpl.funcs if f['kind'] == 'r']
+        idx = {f['name']: f['index'] for f in tpl.funcs}
+        for s_ in tpl.slots:
+            own = idx.get(s_.owner, 10 ** 6)
+            if s_.kind == 'use':
+                s_.value = ctx.rng.choice([None] * 2 + [g[0] for g in GLOBALS])
+            else:
+                pool = [x for x in (names_v if s_.kind == 'callv' else names_r) if idx[x] < own]
+                s_.value = ctx.rng.choice([None] * 2 + pool) if pool else None
+        uses = {}
+        for f in sorted(tpl.funcs, key=lambda f: f['index']):
+            u = set()
+            if f['slots']['use'].value:
+                u.add(f['slots']['use'].value)
+            for kk in ('callv', 'callr'):
+                if f['slots'][kk].value:
+                    u |= uses[f['slots'][kk].value]
+            uses[f['name']] = u
+        want = {g[0]: 0 for g in GLOBALS}
+        stages = []
+        for e in tpl.entries:
+            u = set()
+            if e['slots']['use'].value:
+                u.add(e['slots']['use'].value)
+            for s_ in [e['slots']['callr']] + list(e['ctx'].values()):
+                if s_.value:
+                    u |= uses[s_.value]
+            for g in u:
+                want[g] |= STAGE_BIT[e['stage']]
+            stages.append(e['stage'])
+        if want['pc'] == 0:
+            for st in set(stages):
+                want['pc'] |= STAGE_BIT[st]
+        src = tpl.render(None, k % 4)
+        vis = real_visibility(ctx, src)
+        got = {g[0]: vis.get(g[0]) for g in GLOBALS}
+        if got != want:
+            if not reported:
+                reported = True
+                ctx.report('C03/native', f'real generator emits visibility {got}, static use says {want}', {'wgsl': src}, True, {'real': got, 'expected': want})
+        else:
+            ctx.replayed_ok += 1
+    ctx.sample({'random template fillings compared natively': n})
+
+
 if __name__ == '__main__':
-    sys.exit(main('C03', run))
+    sys.exit(main('C03', run, native))
